@@ -94,6 +94,9 @@ class ManifestContext:
             self.profiles.append(additional_profiles['dvb'])
 
         timing: DashTiming | None = None
+        if multi_period is None and self.timing_ref is None:
+            raise ValueError(
+                f'The timing reference of stream {stream.directory} has not been configured')
         if self.timing_ref is not None:
             timing = DashTiming(self.now, self.timing_ref, options)
             self.mediaDuration = self.timing_ref.media_duration_timedelta().total_seconds()
